@@ -165,11 +165,24 @@ func (w *gmWorld) createBalancer() {
 		assets = append(assets, balancer.PoolAsset{Weight: sdkmath.NewInt(wt), Token: sdk.NewCoin(d, sdkmath.NewIntFromBigInt(amt))})
 	}
 	fee := osmomath.MustNewDecFromStr(gmFees[r.Intn(len(gmFees))])
-	msg := balancer.NewMsgCreateBalancerPool(w.actors[0].Addr, balancer.NewPoolParams(fee, osmomath.ZeroDec(), nil), assets, "")
+	// one balancer pool in four has weights that move over a short schedule (seconds to a minute), so that the
+	// histories' few blocks pass through it and beyond its end
+	var smooth *balancer.SmoothWeightChangeParams
+	if r.Intn(4) == 0 {
+		var targets []balancer.PoolAsset
+		for _, a := range assets {
+			targets = append(targets, balancer.PoolAsset{Weight: sdkmath.NewInt(1 + r.I64n(100)), Token: sdk.NewCoin(a.Token.Denom, sdkmath.ZeroInt())})
+		}
+		smooth = &balancer.SmoothWeightChangeParams{StartTime: w.ch.Ctx.BlockTime().Add(time.Duration(r.Intn(10)) * time.Second), Duration: time.Duration(3+r.Intn(60)) * time.Second, TargetPoolWeights: targets}
+	}
+	msg := balancer.NewMsgCreateBalancerPool(w.actors[0].Addr, balancer.NewPoolParams(fee, osmomath.ZeroDec(), smooth), assets, "")
 	res := w.ch.Exec(&msg)
 	if !res.OK() {
 		w.c.Logf("create balancer rejected: %s", trunc(res.ErrString(), 200))
 		return
+	}
+	if smooth != nil {
+		w.c.Count("pools_with_moving_weights", 1)
 	}
 	id := w.newPoolID()
 	w.pools = append(w.pools, &gmPool{id: id, kind: "balancer", denoms: ds, shareDenom: gammtypes.GetPoolShareDenom(id), addr: poolmanagertypes.NewPoolAddress(id), directSent: sdk.NewCoins(), fee: fee})
